@@ -378,7 +378,14 @@ def run_shard(shard):
             for p in path:
                 sysm.apply_quiet(p)
             if sysm.state() != st:
-                raise AssertionError("replay divergence: path %r reached %r, expected %r" % (path, sysm.state(), st))
+                # the same operations on a FRESH driver gave another state than they did a moment ago: the outcome of a
+                # write depends on something outside this property (other vectors / drivers that existed in the process)
+                key = ("depends-on-other-vectors", "rule=%s" % rule)
+                if key in sig:
+                    sig[key]["count"] += 1
+                else:
+                    sig[key] = {"clause": key[0], "disc": key[1], "count": 1, "what": "operations %r on a fresh driver reached %r; the same operations on an earlier fresh driver reached %r" % (path, sysm.state(), st), "replay": {"rule": rule, "init": init, "path": path, "op": None, "mode": mode, "diverged": True, "n": n, "tier": tier, "expected": repr(st)}}
+                break
             pre = sysm.on()
             exc = None
             published = []
@@ -426,7 +433,12 @@ def run_shard(shard):
             for p in apath:
                 sysm.apply_quiet(p)
             if sysm.state() != st:
-                raise AssertionError("second history %r does not reach %r" % (apath, st))
+                key = ("depends-on-other-vectors", "rule=%s" % rule)
+                if key in sig:
+                    sig[key]["count"] += 1
+                else:
+                    sig[key] = {"clause": key[0], "disc": key[1], "count": 1, "what": "operations %r on a fresh driver reached %r; the same operations on an earlier fresh driver reached %r" % (apath, sysm.state(), st), "replay": {"rule": rule, "init": init, "path": apath, "op": None, "mode": mode, "diverged": True, "n": n, "tier": tier, "expected": repr(st)}}
+                break
             pre = sysm.on()
             exc = None
             published = []
@@ -478,6 +490,21 @@ def _t(x):
 
 
 def replay(rep):
+    if rep.get("diverged"):
+        # warm-up: every operation once on fresh drivers (what the search had done before), then the path on another one
+        init = _t(rep["init"])
+        for op in ops(rep["n"], rep["tier"], rep.get("mode")):
+            w_ = Sys(rep["rule"], init, rep.get("mode"))
+            try:
+                w_.apply(op)
+            except Exception:
+                pass
+        sysm = Sys(rep["rule"], init, rep.get("mode"))
+        for p in _t(rep["path"]):
+            sysm.apply_quiet(p)
+        if repr(sysm.state()) != rep["expected"]:
+            return [{"clause": "depends-on-other-vectors", "disc": "rule=%s" % rep["rule"], "what": "fresh driver reached %r, expected %s" % (sysm.state(), rep["expected"])}]
+        return []
     sysm = Sys(rep["rule"], _t(rep["init"]), rep.get("mode", "republish" if rep.get("republish") else None))
     for p in _t(rep["path"]):
         sysm.apply_quiet(p)
